@@ -272,6 +272,53 @@ theorem C08_default_model (vs : List TVal) (sz cap : Nat) (e s k w : Ty) :
     hsSumIter (.user sz) vs = hsDefault (.user sz) vs ∧ hsSumExact (.user sz) vs = hsDefault (.user sz) vs := by
   simp [hsSumIter, hsSumExact]
 
+/-! ### the trait defaults and the `ValueSize` / `MemSize` blanket impls, read the same way -/
+
+/-- The value of an atom inside a *default* bulk helper of `t` (or the `Sized` blanket impl) called on an iterator
+yielding `vs`: `make_iter().map(HeapSize::heap_size).sum()`, `Self::heap_size_sum_iter(make_iter)`, the same two
+for `ValueSize`, `mem::size_of::<Self>()`, `iterator.count()`, `iterator.len()`. -/
+def atomDefault (t : Ty) (vs : List TVal) : Atom → Nat
+  | .mapHeapSum => hsDefault t vs
+  | .viaSumIter => hsSumIter t vs
+  | .mapValueSum => vsDefault t vs
+  | .viaValueSumIter => vsSumIter t vs
+  | .sizeOfSelf => t.size
+  | .iterCount => vs.length
+  | .iterLen => vs.length
+  | _ => 0
+
+/-- For a type without overrides (here: the owned string types, `Vec`, `Option`, a user-defined type) the trait's
+default bodies, as regenerated from the source, are the model's helpers. -/
+theorem C08_defaults_are_the_model (vs : List TVal) (sz : Nat) (e : Ty) :
+    (GeneratedMem.heapDefaults.map (evalBody (atomDefault (.stringLike sz) vs))) =
+      [hsSumIter (.stringLike sz) vs, hsSumExact (.stringLike sz) vs] ∧
+    (GeneratedMem.heapDefaults.map (evalBody (atomDefault (.vec sz e) vs))) = [hsSumIter (.vec sz e) vs, hsSumExact (.vec sz e) vs] ∧
+    (GeneratedMem.heapDefaults.map (evalBody (atomDefault (.option sz e) vs))) =
+      [hsSumIter (.option sz e) vs, hsSumExact (.option sz e) vs] ∧
+    (GeneratedMem.heapDefaults.map (evalBody (atomDefault (.user sz) vs))) = [hsSumIter (.user sz) vs, hsSumExact (.user sz) vs] := by
+  have h := C08_source_defaults.1
+  rw [h]
+  simp [evalBody, prodOf, atomDefault, hsSumIter, hsSumExact]
+
+/-- The `Sized` blanket impl multiplies `size_of` by the number of items (`count()` / `len()`), the unsized types and
+a user-defined unsized type sum `value_size` element-wise — as the model's `vsSumIter` / `vsSumExact` do. -/
+theorem C08_value_defaults_are_the_model (vs : List TVal) (sz : Nat) (e : Ty) :
+    ((GeneratedMem.sizedValue.drop 1).map (evalBody (atomDefault (.vec sz e) vs))) = [vsSumIter (.vec sz e) vs, vsSumExact (.vec sz e) vs] ∧
+    (GeneratedMem.valueDefaults.map (evalBody (atomDefault .strLike vs))) = [vsSumIter .strLike vs, vsSumExact .strLike vs] ∧
+    (GeneratedMem.valueDefaults.map (evalBody (atomDefault (.slice e) vs))) = [vsSumIter (.slice e) vs, vsSumExact (.slice e) vs] ∧
+    (GeneratedMem.valueDefaults.map (evalBody (atomDefault .userDyn vs))) = [vsSumIter .userDyn vs, vsSumExact .userDyn vs] := by
+  have h := C08_source_defaults
+  rw [h.2.2.1, h.2.1]
+  simp [evalBody, prodOf, atomDefault, vsSumIter, vsSumExact, Ty.size, Nat.mul_comm]
+
+/-- `mem_size = value_size + heap_size` is what the regenerated blanket impl says. -/
+theorem C08_mem_size_body (t : Ty) (v : TVal) :
+    evalBody (fun a => match a with | .valueSize => valueSize t v | .heapSize => heapSize t v | _ => 0) GeneratedMem.memSizeBody =
+      memSize t v := by
+  rw [C08_source_defaults.2.2.2.1]
+  simp [evalBody, prodOf, memSize]
+  omega
+
 /-! ### non-vacuity: the table has 25 rows, no unknown phrase -/
 example : expectedImpls.length = 25 := by decide
 example : GeneratedMem.impls.all (fun r =>
